@@ -35,5 +35,5 @@ def run(ctx):
     mosekprog.r_heur_objective(ctx)
     ctx.floor("MOSEK recovery sequences unrolled", nd, 15)
     common.r_argbind(ctx, {"prepare_heuristic", "heuristic", "generate_problem", "send_constraint_to_solver", "send_lmi_constraint_to_solver", "assign_dual_values", "expression_to_sparse_matrices", "expression_to_matrices"})
-    ctx.floor("bar-variable index sites", nb, 6)
+    ctx.floor("bar-variable index sites", nb, 4)
     ctx.floor("objective-slot sites", no, 2)
